@@ -1,11 +1,11 @@
 """C09 - compiling a series mini-language algorithm preserves its meaning."""
 from .common import Decision, run_units
-from .series_props import specs_evals, specs_wiring, specs_product, specs_index, fold_canaries
+from .series_props import specs_evals, specs_corpus, specs_wiring, specs_product, specs_index, fold_canaries
 
 
 def check(tier, seed):
     d = Decision("C09", tier, seed)
-    specs = specs_evals(tier) + specs_wiring(tier) + specs_product(tier) + specs_index(tier)
+    specs = specs_evals(tier) + specs_corpus(tier) + specs_wiring(tier) + specs_product(tier) + specs_index(tier)
     d.add_units(fold_canaries(run_units(specs)))
     d.assumptions += [
         "specification = equations read from pymablock/algorithms.py by an independent reader (leanalg/extract.py) that shares no code with the repository's compiler",
@@ -14,12 +14,20 @@ def check(tier, seed):
         "well-foundedness of the shipped recurrences (termination) is not proved here; detection of direct self-reference is (C19)",
     ]
     d.not_decided += [
-        "quantifier 'all generated well-founded programs in the documented grammar': only the two shipped algorithms are validated deductively "
-        "(all flag combinations, all index classes, symbolic block count / orders / parameter count); a generated-program family is not claimed",
+        "quantifier 'all generated well-founded programs in the documented grammar': the two shipped algorithms and the nine programs of the corpus "
+        "contracts/dsl_corpus.py (every grammar production in every documented context) are validated deductively, each for all flag combinations, all "
+        "index classes, symbolic block count / orders / parameter count; an arbitrary program is not (that needs a proof about the compiler itself, which is a set of "
+        "Python AST transformers outside this technique's reach); the constructs of known finding F-DSL are left out of the corpus",
     ]
     d.explanation = ("Translation validation of the output of the repository's own compiler on every run: each generated series_eval AST is "
                      "executed symbolically for every index class and flag valuation and its denotation is compared (free *-algebra normal form) "
                      "with the independently extracted equation; deletions are proved to touch only non-start, non-blacklisted, not-in-flight "
                      "entries; series_computation's wiring (start data, evaluators, products and their flags, linear-operator twins, scope) is "
-                     "proved for concrete block/parameter counts; the Cauchy product and cache units it relies on are re-run here.")
-    return d.finish(level="proof", trusted_base=["contracts/algorithm_evals.py", "leanalg/extract.py", "contracts/series_product.py", "contracts/series_index.py"])
+                     "proved for concrete block/parameter counts; the Cauchy product and cache units it relies on are re-run here.  The same translation validation runs on a "
+                     "corpus of nine further programs (contracts/dsl_corpus.py: adjoints of series and products in unconditional / diagonal / offdiagonal / lower "
+                     "context, scope functions of series and expressions, (anti)hermitian markers at any position, all start kinds, divisions, flags, terms "
+                     "deleted after a single use), against the documented meaning read by the independent reader.")
+    d.run_battery("dsl_battery.py", ["all"], "the nine corpus programs compiled and run natively by series_computation against a direct interpreter of the extracted definitions: "
+                  "2-3 blocks of sizes 1-3, 1-2 parameters, total order <= 3, four request schedules (ascending; descending, off-diagonal first; shuffled with repeats; "
+                  "intermediates and declared products before outputs), offdiag given / None, both values of the flags")
+    return d.finish(level="proof", trusted_base=["contracts/algorithm_evals.py", "contracts/dsl_corpus.py", "leanalg/extract.py", "contracts/series_product.py", "contracts/series_index.py"])
